@@ -3,6 +3,7 @@
    Msg/Utf8EnforceP.v. *)
 From Coq Require Import List NArith Bool.
 From PB Require Import Base.PBytes Base.Utf8Valid Base.Utf8ValidP Msg.Utf8EnforceModel Msg.Utf8EnforceP.
+From PB Require Gen.CoderTable Msg.Utf8CoderTableP.
 Import ListNotations.
 
 (* Go's utf8.Valid (first-byte table, accept ranges, 8-byte ASCII fast path) accepts exactly
@@ -128,3 +129,50 @@ Theorem C13_enforce_table : forall legacy fd,
   end.
 Proof. exact enforce_table. Qed.
 Print Assumptions C13_enforce_table.
+
+(* ---------------------------------------------------------------- Tier T: the decision table of
+   internal/impl/codec_tables.go (fieldCoder, encoderFuncsForValue), regenerated from the source on
+   every run by srcmodel_codertable into Gen/CoderTable.v. *)
+Module CT.
+Import Coq.Strings.String PB.Gen.CoderTable PB.Msg.Utf8CoderTableP.
+Open Scope string_scope.
+
+(* the extractor classified every row and every coder variable *)
+Theorem C13_coder_table_classified : classified = true.
+Proof. exact classified_true. Qed.
+Print Assumptions C13_coder_table_classified.
+
+(* Full statement (refuted, FL1): for every row whose kind is String and either value of
+   strs.EnforceUTF8(fd), the selected coder is a ...ValidateUTF8 coder iff EnforceUTF8, and its marshal
+   and unmarshal functions call utf8.Valid/ValidString iff EnforceUTF8. *)
+Theorem C13_validate_coder_refuted_FL1 :
+  exists r c, In r table /\ r_kind r = "String" /\ excl_FL1_row r = true /\
+    select table (r_fn r) (r_cls r) "String" (r_gotype r) true = Some c /\
+    validating_name c = false /\ funcs_validate c = Some (false, false).
+Proof. exact validate_coder_refuted_FL1. Qed.
+Print Assumptions C13_validate_coder_refuted_FL1.
+
+Theorem C13_validate_coder_iff_enforce_except_FL1 : forall r enf,
+  In r table -> r_kind r = "String" -> excl_FL1_row r = false ->
+  exists c, select table (r_fn r) (r_cls r) "String" (r_gotype r) enf = Some c /\
+            validating_name c = enf /\ funcs_validate c = Some (enf, enf).
+Proof. exact validate_coder_iff_enforce_except_FL1. Qed.
+Print Assumptions C13_validate_coder_iff_enforce_except_FL1.
+Example C13_validate_coder_iff_enforce_except_FL1_ex :
+  select table "fieldCoder" "NoZero" "String" "String" true = Some "coderStringNoZeroValidateUTF8" /\
+  select table "fieldCoder" "NoZero" "String" "String" false = Some "coderStringNoZero" /\
+  select table "encoderFuncsForValue" "Value" "String" "Any" true = Some "coderStringValueValidateUTF8".
+Proof. vm_compute. repeat split. Qed.
+
+(* the exclusion predicate is exact: every excluded String row really selects a non-validating coder *)
+Theorem C13_excl_FL1_rows_all_fail : forall r,
+  In r table -> r_kind r = "String" -> excl_FL1_row r = true -> check_row r true = false.
+Proof. exact excl_FL1_rows_all_fail. Qed.
+Print Assumptions C13_excl_FL1_rows_all_fail.
+
+Theorem C13_bytes_rows_never_validate : forall r,
+  In r table -> r_kind r = "Bytes" ->
+  validating_name (r_coder r) = false /\ funcs_validate (r_coder r) = Some (false, false).
+Proof. exact bytes_rows_never_validate. Qed.
+Print Assumptions C13_bytes_rows_never_validate.
+End CT.
